@@ -26,6 +26,7 @@ import (
 	"github.com/pkg/errors"
 	metav1 "k8s.io/apimachinery/pkg/apis/meta/v1"
 	"k8s.io/apimachinery/pkg/labels"
+	"k8s.io/apimachinery/pkg/types"
 	"k8s.io/client-go/tools/cache"
 	"k8s.io/klog/v2"
 	"k8s.io/utils/clock"
@@ -75,7 +76,10 @@ func (w *CronWorker) WorkerName() string {
 // Init is called before we start the worker. We will initialize all JobConfigs
 // into the Schedule.
 func (w *CronWorker) Init() error {
-	// From this point on, newly added JobConfigs are flushed by the informer.
+	// From this point on, newly added JobConfigs are flushed by the informer, once
+	// it knows which JobConfigs were loaded here.
+	w.loadedConfigsMu.Lock()
+	defer w.loadedConfigsMu.Unlock()
 	atomic.StoreUint32(&w.scheduleInitialized, 1)
 
 	jobConfigs, err := w.jobconfigInformer.Lister().JobConfigs(metav1.NamespaceAll).List(labels.Everything())
@@ -93,6 +97,12 @@ func (w *CronWorker) Init() error {
 	}
 
 	w.schedule = sched
+	w.loadedConfigs = make(map[string]types.UID, len(jobConfigs))
+	for _, jobConfig := range jobConfigs {
+		if key, err := cache.MetaNamespaceKeyFunc(jobConfig); err == nil {
+			w.loadedConfigs[key] = jobConfig.GetUID()
+		}
+	}
 	return nil
 }
 
